@@ -2,7 +2,7 @@
    ExtrOcamlBasic only: Z, positive, nat stay the extracted inductive types. *)
 Require Extraction.
 Require Import ExtrOcamlBasic.
-From CCTZ Require Import Base SrcConstants Cal CivilImpl FixedImpl PosixImpl PosixSpec ZoneLoad ZoneImpl ZoneSpec ZoneZ ZoneHist ZoneRefineDefs SplitJoin LoaderSM FormatImpl ParseImpl FmtSpec.
+From CCTZ Require Import Base SrcConstants Cal CivilImpl FixedImpl PosixImpl PosixSpec ZoneLoad ZoneImpl ZoneSpec ZoneZ ZoneHist ZoneRefineDefs SplitJoin LoaderSM NameRes FormatImpl ParseImpl FmtSpec.
 Extraction Language OCaml.
 Extraction "model.ml"
   Z.add Z.mul Z.sub Z.opp Z.div_eucl Z.compare Z.of_nat Z.to_nat
@@ -18,4 +18,5 @@ Extraction "model.ml"
   zone_ok abs_zone table_sorted zmake zbreak zconvert wfz
   split_seconds split_spec to_femto join_subsecond join_coarse join_seconds_rep rep_min rep_max
   exec ls_results ls_log ls_impls overlapping entries_for
+  NameRes.load_time_zone local_zone_name zone_path
   format_impl parse_impl render_spec clean_fmt lossless_fmt spec_tm lex format64 format_offset fmt_parse_offset parse_int64 parse_int32.
